@@ -41,7 +41,7 @@ impl<C> Call<C> {
 
 pub type Map<C> = BTreeMap<(i32, i32), C>;
 
-pub const BIG_BOX: Rectangle = Rectangle::new(Point::new(-40_000, -40_000), Size::new(80_000, 80_000));
+pub const BIG_BOX: Rectangle = Rectangle::new(Point::new(-1_000_000, -1_000_000), Size::new(2_000_000, 2_000_000));
 /// Upper bound on colours drained from an over-long (possibly infinite) colour stream.
 pub const DRAIN_LIMIT: usize = 2_000_000;
 
